@@ -28,6 +28,7 @@ import GdVerif.Run.Jc2m
 import GdVerif.Run.GenGs3
 import GdVerif.Run.Gs3Faults
 import GdVerif.Run.GenJc2m
+import GdVerif.Run.Jc2mFaults
 import GdVerif.Run.Small
 import GdVerif.Run.FfowFaults
 /-
@@ -60,6 +61,7 @@ def allEntries : List (String × (List String → String)) := List.flatten [
   gs3Entries,
   gs3FaultEntries,
   jc2mEntries,
+  jc2mFaultEntries,
   smallEntries,
   ffowFaultEntries,
   gs1Entries,
